@@ -11,8 +11,8 @@
     backD  frames written directly to the sender (WINDOW_UPDATE credit)
 
   `accept` replays the step on the model, taking Go's map-iteration order from the order in which
-  streams first appear in the observed frames (per scan: a SETTINGS frame that names
-  INITIAL_WINDOW_SIZE n times makes n scans, `scanOrders`), and demands equality.  Equality with the model under
+  streams first appear in the observed frames (a WINDOW_UPDATE on stream 0 and a SETTINGS frame that
+  names INITIAL_WINDOW_SIZE — however often — make ONE scan of the queues), and demands equality.  Equality with the model under
   *some* order means: every observed frame was the head of its stream's queue, fitted both windows
   when released, per-stream order is FIFO, and nothing that fits is left queued (maximality).
 
@@ -85,34 +85,17 @@ inductive Verdict where
   | ok (r : Relay U)
   | reject (part : String) (expected got : String)
 
-/-- the prefixes of a SETTINGS list that end with an INITIAL_WINDOW_SIZE entry: one per scan of the
-    queues (`updateInitialWindowSize` scans after every such value, not once per frame) -/
-def scanPrefixes : List (Nat × Nat) → List (Nat × Nat) → List (List (Nat × Nat))
-  | _, [] => []
-  | acc, kv :: rest =>
-    if kv.1 = settingInitialWindowSize then (acc ++ [kv]) :: scanPrefixes (acc ++ [kv]) rest
-    else scanPrefixes (acc ++ [kv]) rest
-
-/-- Go's iteration order for each scan of one SETTINGS frame: scan `k` visits the streams in the order
-    in which they first appear among the observed frames that the scans before it did not produce -/
-def scanOrders (o : Dir U) (obs : List Obs) (ps : List (List (Nat × Nat))) : List (List Nat) :=
-  (ps.foldl (fun (acc : List (List Nat) × List (Nat × Nat)) p =>
-      let done := (wire (applySettings o (fun i => acc.1.getD i []) 0 acc.2).2).length
-      (acc.1 ++ [orderOf (obs.drop done)], p)) ([], [])).1
-
 /-- the iteration orders the acceptor replays a step with -/
-def ordFor (r : Relay U) (st : Step) : Nat → List Nat :=
+def ordFor (st : Step) : Nat → List Nat :=
   match st.op with
-  | .windowUpdate _ _ => fun _ => orderOf st.backQ
-  | .settings kvs =>
-    let o := match st.side with | .client => r.sc | .server => r.cs
-    let os := scanOrders o st.backQ (scanPrefixes [] kvs)
-    fun k => os.getD k []
+  -- one scan at most, on the opposite relay: `updateWindow` on stream 0, `applySettings` for the
+  -- INITIAL_WINDOW_SIZE value in force
+  | .windowUpdate _ _ | .settings _ => fun _ => orderOf st.backQ
   | _ => fun _ => orderOf st.fwdQ
 
 /-- one step of the acceptor -/
 def accept (r : Relay U) (st : Step) : Verdict :=
-  let x := r.step st.side (ordFor r st) st.op
+  let x := r.step st.side (ordFor st) st.op
   let out := x.2
   let fwd := wire out.fwd
   let back := wire out.back
@@ -158,7 +141,7 @@ def acceptAll : AccState → Nat → List Step → Except (Nat × String × Stri
     | .reject p e g => .error (i, p, e, g)
     | .ok r' =>
       -- recompute the output for the bookkeeping of sequence numbers (cheap)
-      let out := (a.r.step st.side (ordFor a.r st) st.op).2
+      let out := (a.r.step st.side (ordFor st) st.op).2
       acceptAll (a.push st r' out) (i + 1) rest
 
 /-! ### Property checker (ops and observations only) -/
